@@ -32,6 +32,7 @@ def check(run):
     _dt.check_float_results(run, P, ["uxarray/core/gradient.py:_calculate_edge_face_difference", "uxarray/core/gradient.py:_calculate_edge_node_difference",
                                     "uxarray/core/gradient.py:_calculate_grad_on_edge_from_faces", "uxarray/core/dataarray.py:UxDataArray.gradient", "uxarray/core/dataarray.py:UxDataArray.difference"])
     _boundary_zero(run, P)
+    _distance_inputs(run, P)
     R = dataflow(P, run.tier)
     ok, bad = emit(run, R, {"IDX/space", "IDX/fill-safety", "UNIT/deg->trig", "UNIT/double-conversion"}, files=[NEI, GRAD])
     run.floor("F-IDX", ok + bad, 8)
@@ -77,7 +78,14 @@ def check(run):
         else:
             run.violation("F-PATH/boundary-guard", c, where(g, st), "numerator, denominator and target of the gradient division are not restricted by the same saddle mask")
     else:
-        run.incomplete("F-PATH/boundary-guard", c, where(g), "masked division not found")
+        # a division whose result REBINDS the array (grad = grad[..., mask] / d[mask]) compresses the edge axis to the interior edges
+        shrink = [st for st in iter_stmts(g.node.body) if isinstance(st, ast.Assign) and isinstance(st.targets[0], ast.Name) and isinstance(st.value, ast.BinOp) and isinstance(st.value.op, ast.Div)
+                  and isinstance(st.value.left, ast.Subscript) and norm(st.value.left.value) == norm(st.targets[0]) and not norm(st.value.left.slice).replace(" ", "") in ("...", "...,:")
+                  and any("mask" in norm(x) or "!=" in norm(x) for x in ast.walk(st.value.left.slice))]
+        if shrink:
+            run.violation("F-PATH/boundary-guard", c, where(g, shrink[0]), f"{norm(shrink[0])[:90]} replaces the per-edge array by its boundary-free selection: the result is labelled n_edge but has fewer entries than the grid has edges (partial grids / subsets)")
+        else:
+            run.incomplete("F-PATH/boundary-guard", c, where(g), "masked division not found")
     # result construction of gradient / difference: dims[-1] = "n_edge", same grid
     da = P.cls(f"{DA}:UxDataArray")
     for m in ("gradient", "difference"):
@@ -147,3 +155,43 @@ def _boundary_zero(run, P):
         run.holds("IDX/boundary-zero", c, where(f, alloc), f"zeros for every edge; computed distance stored only where {mask} (second face present)")
     else:
         run.violation("IDX/boundary-zero", c, where(f, alloc), "computed distances are not restricted to the edges whose second face exists")
+
+
+def _distance_inputs(run, P):
+    """great-circle distances are computed from lon/lat of the right element kind, or from Cartesian vectors that were normalised first:
+    stored <kind>_x/y/z may come from the source with any radius (metres, km), so a chord/arc formula on them is only valid after _normalize_xyz."""
+    import ast as _ast, re
+    from ..astutil import LocalDefs
+    for fname, kind_, conn in (("_populate_edge_node_distances", "node", "edge_node_connectivity"), ("_populate_edge_face_distances", "face", "edge_face_connectivity")):
+        f = P.func(f"uxarray/grid/neighbors.py:{fname}")
+        defs = LocalDefs(f.node)
+        call = next((n for n in _ast.walk(f.node) if isinstance(n, _ast.Call) and (dotted(n.func) or [""])[-1].startswith("_construct_edge_")), None)
+        c = f"{f.key}:distance-inputs"
+        if call is None:
+            run.incomplete("F-UNIT/distance-inputs", c, where(f), "call of the distance constructor not found")
+            continue
+        coords = []
+        normalised = False
+        for a in call.args:
+            nodes, _ = defs.closure(a)
+            for e in nodes:
+                for n in _ast.walk(e):
+                    if isinstance(n, _ast.Attribute) and re.match(r"^(node|edge|face)_(lon|lat|x|y|z)$", n.attr):
+                        coords.append(n.attr)
+                    if isinstance(n, _ast.Call) and (dotted(n.func) or [""])[-1].startswith("_normalize_xyz"):
+                        normalised = True
+        kinds = {c_.split("_")[0] for c_ in coords}
+        comps = {c_.split("_")[1] for c_ in coords}
+        probs = []
+        if kinds != {kind_}:
+            probs.append(f"coordinates of {sorted(kinds)} are used; the ends of the {conn.split('_')[1]} pairs are {kind_}s")
+        if comps & {"x", "y", "z"} and not normalised:
+            probs.append(f"stored Cartesian coordinates {sorted(c_ for c_ in coords if c_.split('_')[1] in 'xyz')} enter the arc-length formula without _normalize_xyz: a source that supplies them with a radius other than 1 (metres, km) gives NaN or wrong distances")
+        if comps and not (comps <= {"lon", "lat"} or comps <= {"x", "y", "z"}):
+            probs.append(f"mixed coordinate systems {sorted(comps)}")
+        if not any(conn in norm(a) for a in call.args):
+            probs.append(f"{conn} is not passed")
+        if probs:
+            run.violation("F-UNIT/distance-inputs", c, where(f, call), "; ".join(probs))
+        else:
+            run.holds("F-UNIT/distance-inputs", c, where(f, call), f"distances from {sorted(set(coords))} through {conn}")
